@@ -164,9 +164,26 @@ def _na(ctx) -> None:
                            f"fresh copy of self)")
     if k < 2:
         raise AnalysisError("fillna: expected two fill results (promoting and standard path)")
-    # an object vector (all-None columns, mixed values) accepts any fill value: no rejection may be reachable for it
     itf = interp_of(prog, f)
     from ..symx import flatten_conds, subterms
+    # ... and every result IS such a fill: a result that is a copy of self as it stands (a 'nothing to fill' fast path) keeps the
+    # dtype's nullable flag - a vector declared nullable that holds no None (a slice or mask of a nullable column) would come back
+    # nullable from fillna(x) while dropna() reports it non-nullable
+    rprobs = []
+    for r in itf.events:
+        if r.kind != "return" or r.depth != 0:
+            continue
+        for lf in leaves(r.term):
+            if lf[0] == "call" and lf[1][0] == "attr" and lf[1][2] == "copy" and lf[1][1] == SELF:
+                non_nullable = any(t[0] == "attr" and t[2] == "nullable" and not pol for t, pol in flatten_conds(r.conds))
+                if not non_nullable:
+                    rprobs.append(f"`return {show(lf, itf)[:40]}` (line {getattr(r.node, 'lineno', 0)}): a copy of self keeps a nullable dtype although "
+                                  f"the result holds no None")
+            elif not (lf[0] == "call" and lf[1] in (("name", "Vector"),)):
+                rprobs.append(f"`return {show(lf, itf)[:40]}` is not a vector built from the filled elements")
+    ctx.ob("d.na-triple", f, "fillna-returns", not rprobs, "every fillna result is built from the filled elements (non-nullable by construction)",
+           f.node, message="fillna: " + "; ".join(rprobs[:2]))
+    # an object vector (all-None columns, mixed values) accepts any fill value: no rejection may be reachable for it
     bad = []
     for e in itf.events:
         if e.kind != "raise":
